@@ -3,6 +3,7 @@ C05 — helper lemmas: the scanner primitives (`next`, `peek`, `backup`, `emit` 
 invariant `0 ≤ start ≤ pos ≤ len`, the per-state step lemma, and the run lemma.
 -/
 import Kap.Model.C05
+import Lean
 namespace Kap.C05
 
 theorem dec2_width (b0 : Nat) (r : Bytes) : 1 ≤ (dec2 b0 r).2 ∧ (dec2 b0 r).2 ≤ r.length + 1 := by
@@ -81,16 +82,12 @@ structure TokInv (toks : List Tok) (bound : Int) : Prop where
 theorem TokInv.mono {toks : List Tok} {b b' : Int} (h : TokInv toks b) (hb : b ≤ b') : TokInv toks b' :=
   ⟨fun t ht => by have := h.tb t ht; omega, h.srt⟩
 
-theorem TokInv.push {toks : List Tok} {b : Int} (h : TokInv toks b) (t : Tok) (h0 : b ≤ t.pos) (h1 : 0 ≤ tlen t) :
+theorem TokInv.push {toks : List Tok} {b : Int} (h : TokInv toks b) (t : Tok) (hb : 0 ≤ b) (h0 : b ≤ t.pos) (h1 : 0 ≤ tlen t) :
     TokInv (t :: toks) (t.pos + tlen t) := by
   constructor
   · intro u hu
     rcases List.mem_cons.mp hu with rfl | hu
-    · have : 0 ≤ b := by
-        cases toks with
-        | nil => omega
-        | cons x xs => have := h.tb x (List.mem_cons_self); omega
-      omega
+    · omega
     · have := h.tb u hu; omega
   · exact List.pairwise_cons.mpr ⟨fun u hu => by have := h.tb u hu; omega, h.srt⟩
 
@@ -117,13 +114,13 @@ theorem emit_good {c : Ctx} {l : Lx} (hg : Good c l) (t : Nat) :
     simp [inRange]; exact ⟨⟨hg.s0, hg.sp⟩, hg.pl⟩
   unfold emit
   simp only [hr, if_true]
-  refine ⟨⟨hg.nt, ?_, ?_, hg.pl, ?_⟩, rfl, rfl⟩
+  refine ⟨⟨hg.nt, ?_, ?_, hg.pl, ?_⟩, ?_, ?_⟩ <;> try trivial
   · show 0 ≤ l.pos
     have := hg.s0; have := hg.sp; omega
   · show l.pos ≤ l.pos
     omega
   · show TokInv (⟨t, l.start, some (l.pos - l.start)⟩ :: l.toks) l.pos
-    have hp := hg.ti.push ⟨t, l.start, some (l.pos - l.start)⟩ (by simp) (by simp [tlen]; have := hg.sp; omega)
+    have hp := hg.ti.push ⟨t, l.start, some (l.pos - l.start)⟩ hg.s0 (by simp) (by simp [tlen]; have := hg.sp; omega)
     simp [tlen] at hp
     have e : l.start + (l.pos - l.start) = l.pos := by omega
     rw [e] at hp
@@ -132,7 +129,7 @@ theorem emit_good {c : Ctx} {l : Lx} (hg : Good c l) (t : Nat) :
 theorem errorf_final {c : Ctx} {l : Lx} (hg : Good c l) : Final c (errorf l) := by
   refine ⟨hg.nt, ?_⟩
   show TokInv (⟨tError, l.start, none⟩ :: l.toks) c.len
-  have hp := hg.ti.push ⟨tError, l.start, none⟩ (by simp) (by simp [tlen])
+  have hp := hg.ti.push ⟨tError, l.start, none⟩ hg.s0 (by simp) (by simp [tlen])
   simp [tlen] at hp
   exact hp.mono (by have := hg.sp; have := hg.pl; omega)
 
@@ -178,5 +175,307 @@ theorem isLetter_eof (c : Ctx) (r : Int) (h : isLetter c r = true) : r ≠ -1 :=
   intro e; subst e; simp [isLetter] at h
 theorem isValidIdent_eof (c : Ctx) (r : Int) (h : isValidIdent c r = true) : r ≠ -1 := by
   intro e; subst e; simp [isValidIdent, isDigit, isLetter] at h
+
+
+/-! ### One step of every state function preserves the invariant and decreases the measure -/
+
+open Lean Elab Tactic Meta in
+/-- Case-split on the condition of the first (outermost) `if` in the goal and rewrite it away. -/
+elab "ite_cases" : tactic => withMainContext do
+  let g ← getMainGoal
+  let t ← instantiateMVars (← g.getType)
+  let some e := t.find? (fun e => e.isAppOfArity ``ite 5) | throwError "no ite"
+  let cond := e.getArg! 1
+  let stx ← Tactic.runTermElab (Term.exprToSyntax cond)
+  evalTactic (← `(tactic| by_cases hc : $stx <;> first | rw [if_pos hc] | rw [if_neg hc]))
+
+macro "fin" : tactic => `(tactic| first
+  | trivial
+  | omega
+  | (simp only [ignore, backup, mu, rank, StInv] ; omega)
+  | (simp only [ignore, backup, *] ; done)
+  | (simp only [ignore, backup, StInv, *] ; done))
+
+macro "cls" : tactic => `(tactic| (
+  try (have := isSpace_eof _ _ ‹isSpace _ _ = true›)
+  try (have := isDigit_eof _ _ ‹isDigit _ _ = true›)
+  try (have := isLetter_eof _ _ ‹isLetter _ _ = true›)
+  try (have := isValidIdent_eof _ _ ‹isValidIdent _ _ = true›)))
+
+macro "branch" : tactic => `(tactic| (
+  simp only [StepOK]
+  simp only [Bool.or_eq_true, Bool.and_eq_true, beq_iff_eq, bne_iff_ne, Bool.not_eq_true', ne_eq, not_or, not_and, eof] at *
+  cls
+  first
+  | (refine ⟨good_move ‹Good _ _› ?_ ?_ ?_ ?_ ?_, ?_, ?_⟩ <;> fin)
+  | (refine emitTo_ok _ (good_move ‹Good _ _› ?_ ?_ ?_ ?_ ?_) (fun _ => trivial) ?_ <;> fin)
+  | (refine errorf_final (good_move ‹Good _ _› ?_ ?_ ?_ ?_ ?_) <;> fin)
+  | (refine good_final (emit_good (good_move ‹Good _ _› ?_ ?_ ?_ ?_ ?_) _).1 <;> fin)))
+
+/-- facts about the first `next` of a step -/
+macro "nx1" : tactic => `(tactic| (
+  have := (‹Good _ _›).s0; have := (‹Good _ _›).sp; have := (‹Good _ _›).pl
+  obtain ⟨hs1, ht1, hr1, hp1, hw1, hl1, he1, ha1, hg1⟩ := next_ok _ _ (by omega : 0 ≤ (_ : Lx).pos) (‹Good _ _›).pl))
+
+theorem step_token (c : Ctx) (l : Lx) (hf : c.fixed = true) (hg : Good c l) :
+    StepOK c l .token (step c l .token) := by
+  have := hg.s0; have := hg.sp; have := hg.pl
+  obtain ⟨hs1, ht1, hr1, hp1, hw1, hl1, he1, ha1, hg1⟩ := next_ok c l (by omega) (by omega)
+  have hpk := peek_snd c (next c l).2 hf (by omega)
+  have hnum : (next c (backup (next c l).2)).1 = (next c l).1 :=
+    next_fst_congr c _ _ (by simp only [backup]; omega)
+  simp only [step, hpk, peek_fst]
+  generalize (next c (next c l).2).1 = r2 at *
+  generalize (next c l).1 = r at *
+  generalize (next c l).2 = l1 at *
+  repeat' ite_cases
+  all_goals (try branch)
+  rename_i hu hd
+  simp only [StepOK]
+  refine ⟨good_move hg ?_ ?_ ?_ ?_ ?_, ?_, ?_⟩
+  · fin
+  · fin
+  · fin
+  · fin
+  · fin
+  · simp only [StInv, hnum]
+    simp only [isUnaryChar, Bool.or_eq_true, beq_iff_eq, not_or] at hu hd ⊢
+    rcases hd with (h | h) | h
+    · exact Or.inl h
+    · exact absurd h hu.1
+    · exact Or.inr h
+  · fin
+
+theorem step_unary (c : Ctx) (l : Lx) (hg : Good c l) : StepOK c l .unary (step c l .unary) := by
+  have := hg.s0; have := hg.sp; have := hg.pl
+  obtain ⟨hs1, ht1, hr1, hp1, hw1, hl1, he1, ha1, hg1⟩ := next_ok c l (by omega) (by omega)
+  simp only [step]
+  repeat' ite_cases
+  all_goals branch
+
+theorem step_binopSp (c : Ctx) (l : Lx) (hg : Good c l) : StepOK c l .binopSp (step c l .binopSp) := by
+  have := hg.s0; have := hg.sp; have := hg.pl
+  obtain ⟨hs1, ht1, hr1, hp1, hw1, hl1, he1, ha1, hg1⟩ := next_ok c l (by omega) (by omega)
+  simp only [step]
+  repeat' ite_cases
+  all_goals branch
+
+theorem step_binopMain (c : Ctx) (l : Lx) (hf : c.fixed = true) (hg : Good c l) :
+    StepOK c l .binopMain (step c l .binopMain) := by
+  have := hg.s0; have := hg.sp; have := hg.pl
+  obtain ⟨hs1, ht1, hr1, hp1, hw1, hl1, he1, ha1, hg1⟩ := next_ok c l (by omega) (by omega)
+  obtain ⟨hs2, ht2, hr2, hp2, hw2, hl2, he2, ha2, hg2⟩ := next_ok c (next c l).2 (by omega) (by omega)
+  have hpk := peek_snd c (next c l).2 hf (by omega)
+  simp only [step, hpk, peek_fst]
+  generalize (next c (next c l).2).1 = r2 at *
+  generalize (next c (next c l).2).2 = l2 at *
+  generalize (next c l).1 = r at *
+  generalize (next c l).2 = l1 at *
+  repeat' ite_cases
+  all_goals branch
+
+
+theorem step_regexOpSp (c : Ctx) (l : Lx) (hf : c.fixed = true) (hg : Good c l) :
+    StepOK c l .regexOpSp (step c l .regexOpSp) := by
+  have := hg.s0; have := hg.sp; have := hg.pl
+  obtain ⟨hs1, ht1, hr1, hp1, hw1, hl1, he1, ha1, hg1⟩ := next_ok c l (by omega) (by omega)
+  have hpk := peek_snd c (backup (next c l).2) hf (by simp only [backup]; omega)
+  simp only [step, hpk, peek_fst]
+  generalize (next c (backup (next c l).2)).1 = r2 at *
+  generalize (next c l).1 = r at *
+  generalize (next c l).2 = l1 at *
+  repeat' ite_cases
+  all_goals branch
+
+theorem step_ident (c : Ctx) (l : Lx) (hg : Good c l) : StepOK c l .ident (step c l .ident) := by
+  have := hg.s0; have := hg.sp; have := hg.pl
+  obtain ⟨hs1, ht1, hr1, hp1, hw1, hl1, he1, ha1, hg1⟩ := next_ok c l (by omega) (by omega)
+  have hgb : Good c (backup (next c l).2) := by
+    refine good_move hg ?_ ?_ ?_ ?_ ?_ <;> fin
+  have hchk := chk_good hgb
+  obtain ⟨hs2, ht2, hr2, hp2, hw2, hl2, he2, ha2, hg2⟩ :=
+    next_ok c (backup (next c l).2) (by simp only [backup]; omega) (by simp only [backup]; omega)
+  simp only [step, hchk]
+  generalize (next c (backup (next c l).2)).1 = r2 at *
+  generalize (next c (backup (next c l).2)).2 = l2 at *
+  generalize keywordOf (cur c (backup (next c l).2)) = kw at *
+  generalize (next c l).1 = r at *
+  generalize (next c l).2 = l1 at *
+  simp only [backup] at hs2 ht2 hr2 hp2
+  repeat' ite_cases
+  all_goals branch
+
+theorem step_reference (c : Ctx) (l : Lx) (hf : c.fixed = true) (hg : Good c l) :
+    StepOK c l .reference (step c l .reference) := by
+  have := hg.s0; have := hg.sp; have := hg.pl
+  obtain ⟨hs1, ht1, hr1, hp1, hw1, hl1, he1, ha1, hg1⟩ := next_ok c l (by omega) (by omega)
+  obtain ⟨hs2, ht2, hr2, hp2, hw2, hl2, he2, ha2, hg2⟩ := next_ok c (next c l).2 (by omega) (by omega)
+  have hpk := peek_snd c (next c l).2 hf (by omega)
+  simp only [step, hpk, peek_fst]
+  generalize (next c (next c l).2).1 = r2 at *
+  generalize (next c (next c l).2).2 = l2 at *
+  generalize (next c l).1 = r at *
+  generalize (next c l).2 = l1 at *
+  repeat' ite_cases
+  all_goals branch
+
+theorem step_regexStart (c : Ctx) (l : Lx) (hg : Good c l) : StepOK c l .regexStart (step c l .regexStart) := by
+  have := hg.s0; have := hg.sp; have := hg.pl
+  obtain ⟨hs1, ht1, hr1, hp1, hw1, hl1, he1, ha1, hg1⟩ := next_ok c l (by omega) (by omega)
+  simp only [step]
+  repeat' ite_cases
+  all_goals branch
+
+theorem step_regexBody (c : Ctx) (l : Lx) (hf : c.fixed = true) (hg : Good c l) :
+    StepOK c l .regexBody (step c l .regexBody) := by
+  have := hg.s0; have := hg.sp; have := hg.pl
+  obtain ⟨hs1, ht1, hr1, hp1, hw1, hl1, he1, ha1, hg1⟩ := next_ok c l (by omega) (by omega)
+  obtain ⟨hs2, ht2, hr2, hp2, hw2, hl2, he2, ha2, hg2⟩ := next_ok c (next c l).2 (by omega) (by omega)
+  have hpk := peek_snd c (next c l).2 hf (by omega)
+  simp only [step, hpk, peek_fst]
+  generalize (next c (next c l).2).1 = r2 at *
+  generalize (next c (next c l).2).2 = l2 at *
+  generalize (next c l).1 = r at *
+  generalize (next c l).2 = l1 at *
+  repeat' ite_cases
+  all_goals branch
+
+theorem step_commentStart (c : Ctx) (l : Lx) (hf : c.fixed = true) (hg : Good c l) :
+    StepOK c l .commentStart (step c l .commentStart) := by
+  have := hg.s0; have := hg.sp; have := hg.pl
+  obtain ⟨hs1, ht1, hr1, hp1, hw1, hl1, he1, ha1, hg1⟩ := next_ok c l (by omega) (by omega)
+  have hpk := peek_snd c l hf (by omega)
+  simp only [step, hpk, peek_fst]
+  generalize (next c l).1 = r at *
+  generalize (next c l).2 = l1 at *
+  repeat' ite_cases
+  all_goals branch
+
+theorem step_commentBody (c : Ctx) (l : Lx) (hg : Good c l) : StepOK c l .commentBody (step c l .commentBody) := by
+  have := hg.s0; have := hg.sp; have := hg.pl
+  obtain ⟨hs1, ht1, hr1, hp1, hw1, hl1, he1, ha1, hg1⟩ := next_ok c l (by omega) (by omega)
+  simp only [step]
+  generalize (next c l).1 = r at *
+  generalize (next c l).2 = l1 at *
+  repeat' ite_cases
+  all_goals branch
+
+theorem step_commentNL (c : Ctx) (l : Lx) (hg : Good c l) : StepOK c l .commentNL (step c l .commentNL) := by
+  have := hg.s0; have := hg.sp; have := hg.pl
+  obtain ⟨hs1, ht1, hr1, hp1, hw1, hl1, he1, ha1, hg1⟩ := next_ok c l (by omega) (by omega)
+  simp only [step]
+  generalize (next c l).1 = r at *
+  generalize (next c l).2 = l1 at *
+  repeat' ite_cases
+  · rename_i hc
+    have hsp : isSpace c r = true := by
+      simp only [Bool.and_eq_true] at hc; exact hc.2
+    branch
+  all_goals branch
+
+
+theorem step_number (c : Ctx) (l : Lx) (hf : c.fixed = true) (hg : Good c l) (fd first : Bool)
+    (hsi : StInv c l (.number fd first)) : StepOK c l (.number fd first) (step c l (.number fd first)) := by
+  have := hg.s0; have := hg.sp; have := hg.pl
+  obtain ⟨hs1, ht1, hr1, hp1, hw1, hl1, he1, ha1, hg1⟩ := next_ok c l (by omega) (by omega)
+  obtain ⟨hs2, ht2, hr2, hp2, hw2, hl2, he2, ha2, hg2⟩ := next_ok c (next c l).2 (by omega) (by omega)
+  have hpk := peek_snd c (next c l).2 hf (by omega)
+  cases first <;> cases fd <;> simp only [step, apply_ite Prod.fst, apply_ite Prod.snd, hpk, peek_fst, ite_self,
+    Bool.false_eq_true, if_false, if_true, Bool.false_and, Bool.true_and, Bool.not_false, Bool.not_true]
+  all_goals generalize (next c (next c l).2).1 = r2 at *
+  all_goals generalize (next c (next c l).2).2 = l2 at *
+  all_goals generalize hr : (next c l).1 = r at *
+  all_goals generalize (next c l).2 = l1 at *
+  all_goals repeat' ite_cases
+  all_goals (try branch)
+  all_goals (
+    exfalso
+    simp only [StInv, Bool.or_eq_true, beq_iff_eq] at hsi
+    simp only [Bool.or_eq_true, Bool.and_eq_true, beq_iff_eq, bne_iff_ne, Bool.not_eq_true', ne_eq, not_or, not_and] at *
+    rcases hsi with h | h
+    · simp_all
+    · omega)
+
+
+theorem step_strOuter (c : Ctx) (l : Lx) (hf : c.fixed = true) (hg : Good c l) (count : Nat) :
+    StepOK c l (.strOuter count) (step c l (.strOuter count)) := by
+  have := hg.s0; have := hg.sp; have := hg.pl
+  obtain ⟨hs1, ht1, hr1, hp1, hw1, hl1, he1, ha1, hg1⟩ := next_ok c l (by omega) (by omega)
+  obtain ⟨hs2, ht2, hr2, hp2, hw2, hl2, he2, ha2, hg2⟩ := next_ok c (next c l).2 (by omega) (by omega)
+  obtain ⟨hs3, ht3, hr3, hp3, hw3, hl3, he3, ha3, hg3⟩ := next_ok c (next c (next c l).2).2 (by omega) (by omega)
+  have hpk1 := peek_snd c (next c l).2 hf (by omega)
+  have hpk2 := peek_snd c (next c (next c l).2).2 hf (by omega)
+  simp only [step, apply_ite Prod.fst, apply_ite Prod.snd, hpk1, hpk2, peek_fst, ite_self]
+  generalize (next c (next c (next c l).2).2).1 = r3 at *
+  generalize (next c (next c (next c l).2).2).2 = l3 at *
+  generalize (next c (next c l).2).1 = r2 at *
+  generalize (next c (next c l).2).2 = l2 at *
+  generalize (next c l).1 = r at *
+  generalize (next c l).2 = l1 at *
+  repeat' ite_cases
+  all_goals branch
+
+theorem step_strInner (c : Ctx) (l : Lx) (hf : c.fixed = true) (hg : Good c l) (count total : Nat) :
+    StepOK c l (.strInner count total) (step c l (.strInner count total)) := by
+  have := hg.s0; have := hg.sp; have := hg.pl
+  obtain ⟨hs1, ht1, hr1, hp1, hw1, hl1, he1, ha1, hg1⟩ := next_ok c l (by omega) (by omega)
+  obtain ⟨hs2, ht2, hr2, hp2, hw2, hl2, he2, ha2, hg2⟩ := next_ok c (next c l).2 (by omega) (by omega)
+  have hpk1 := peek_snd c (next c l).2 hf (by omega)
+  simp only [step, apply_ite Prod.fst, apply_ite Prod.snd, hpk1, peek_fst, ite_self]
+  generalize (next c (next c l).2).1 = r2 at *
+  generalize (next c (next c l).2).2 = l2 at *
+  generalize (next c l).1 = r at *
+  generalize (next c l).2 = l1 at *
+  repeat' ite_cases
+  all_goals branch
+
+/-- **Every step of every state function**: from an in-range cursor the step does not trap, keeps the
+cursor in range and the tokens in order, and strictly decreases the measure. -/
+theorem step_ok (c : Ctx) (hf : c.fixed = true) (l : Lx) (s : St) (hg : Good c l) (hsi : StInv c l s) :
+    StepOK c l s (step c l s) := by
+  cases s with
+  | token => exact step_token c l hf hg
+  | unary => exact step_unary c l hg
+  | binopSp => exact step_binopSp c l hg
+  | binopMain => exact step_binopMain c l hf hg
+  | regexOpSp => exact step_regexOpSp c l hf hg
+  | ident => exact step_ident c l hg
+  | number fd first => exact step_number c l hf hg fd first hsi
+  | reference => exact step_reference c l hf hg
+  | strOuter n => exact step_strOuter c l hf hg n
+  | strInner n t => exact step_strInner c l hf hg n t
+  | regexStart => exact step_regexStart c l hg
+  | regexBody => exact step_regexBody c l hf hg
+  | commentStart => exact step_commentStart c l hf hg
+  | commentBody => exact step_commentBody c l hg
+  | commentNL => exact step_commentNL c l hg
+
+theorem rank_nonneg (s : St) : 0 ≤ rank s := by
+  cases s <;> simp [rank] <;> (try split) <;> omega
+
+/-- The run lemma: with more fuel than the measure, the scanner ends in `done` with ordered in-range tokens. -/
+theorem run_ok (c : Ctx) (hf : c.fixed = true) :
+    ∀ (k : Nat) (l : Lx) (s : St), Good c l → StInv c l s → mu c l s < k →
+      ∃ l', runFrom c k l s = .done l'.toks.reverse ∧ Final c l' := by
+  intro k
+  induction k with
+  | zero =>
+    intro l s hg _ hk
+    have := rank_nonneg s; have := hg.pl
+    simp only [mu] at hk; omega
+  | succ k ih =>
+    intro l s hg hsi hk
+    have h := step_ok c hf l s hg hsi
+    unfold runFrom
+    cases hst : step c l s with
+    | cont l' s' =>
+      rw [hst] at h
+      obtain ⟨hg', hsi', hmu⟩ := h
+      simp only [hg'.nt]
+      exact ih l' s' hg' hsi' (by omega)
+    | done l' =>
+      rw [hst] at h
+      simp only [h.nt]
+      exact ⟨l', rfl, h⟩
 
 end Kap.C05
